@@ -27,6 +27,8 @@ pub enum Anchor {
     End,
     /// bind the body's tail expression to the result name, then insert (R-bindtail)
     Result,
+    /// after the k-th `let __ck = ..` introduced by R-chainlet
+    Chain(usize),
     LoopBegin(usize),
     LoopEnd(usize),
     After(String),
@@ -49,6 +51,8 @@ pub struct ItemContract {
     pub closures: BTreeMap<usize, ClosureC>,
     pub inserts: Vec<(Anchor, Block)>,
     pub nocanary: bool,
+    /// R-chainlet: name the intermediate values of the tail method chain __c0, __c1, ..
+    pub chainlet: bool,
     pub line: usize,
 }
 
@@ -144,6 +148,9 @@ pub fn parse(text: &str, path: &str) -> Contracts {
                     Anchor::End
                 } else if a == "result" {
                     Anchor::Result
+                } else if a.starts_with("chain ") {
+                    let k: usize = a["chain ".len()..].trim().parse().unwrap_or_else(|_| die(&format!("{}:{}: bad chain ordinal", path, ln)));
+                    Anchor::Chain(k)
                 } else if a.starts_with("loop ") {
                     let parts: Vec<&str> = a.split_whitespace().collect();
                     if parts.len() != 3 {
@@ -201,6 +208,12 @@ pub fn parse(text: &str, path: &str) -> Contracts {
                         .as_ref()
                         .unwrap_or_else(|| die(&format!("{}:{}: @attr before @item", path, ln)));
                     c.items.get_mut(it).unwrap().attrs.push(arg.to_string());
+                }
+                "chainlet" => {
+                    let it = cur_item
+                        .as_ref()
+                        .unwrap_or_else(|| die(&format!("{}:{}: @chainlet before @item", path, ln)));
+                    c.items.get_mut(it).unwrap().chainlet = true;
                 }
                 "nocanary" => {
                     let it = cur_item
